@@ -77,6 +77,38 @@ func (p *Prog) envKeyOf(f *Func, e ast.Expr) string {
 	info := f.Pkg.TypesInfo
 	call, ok := ast.Unparen(p.Deref(f, e)).(*ast.CallExpr)
 	if !ok {
+		// a string variable with several definitions of which exactly one is
+		// not the empty string (the others belong to error paths that return)
+		if v, isV := identObj(info, ast.Unparen(e)).(*types.Var); isV && !v.IsField() {
+			var nonEmpty []ast.Expr
+			root := f
+			for root.Parent != nil {
+				root = root.Parent
+			}
+			ast.Inspect(root.Body, func(x ast.Node) bool {
+				as, isAs := x.(*ast.AssignStmt)
+				if !isAs || len(as.Lhs) != len(as.Rhs) {
+					return true
+				}
+				for i, l := range as.Lhs {
+					if identObj(info, l) != v {
+						continue
+					}
+					if sv, isS := constString(info, as.Rhs[i]); isS && sv == "" {
+						continue
+					}
+					nonEmpty = append(nonEmpty, as.Rhs[i])
+				}
+				return true
+			})
+			if len(nonEmpty) == 1 {
+				if c2, isC := ast.Unparen(nonEmpty[0]).(*ast.CallExpr); isC {
+					call, ok = c2, true
+				}
+			}
+		}
+	}
+	if !ok {
 		return ""
 	}
 	// a module helper that just returns the formatted entry
@@ -184,7 +216,7 @@ func ruleEnv(c *Ctx) {
 				}
 				if call.Ellipsis.IsValid() {
 					src := ast.Unparen(call.Args[1])
-					if envSlice != nil && identObj(info, src) == envSlice {
+					if envSlice != nil && (identObj(info, src) == envSlice || identObj(info, ast.Unparen(p.Deref(f, src))) == envSlice) {
 						envSpliceNode = n
 						continue
 					}
